@@ -654,6 +654,31 @@ func stateFlagOnlyAfterStore(x ssa.Value, stFld *types.Var, d *core.Domain) (boo
 				walk(inner)
 				continue
 			}
+			// the edge is taken only after a compare-and-set helper said
+			// "done": a boolean helper that returns true only after it stored
+			// the very value this edge carries
+			{
+				fs := factsAt(pred).add(edgeFacts(pred, ph.Block()))
+				viaCAS := false
+				for _, b := range fs.bools {
+					c, isCall := b.V.(*ssa.Call)
+					if !isCall || !b.Pol {
+						continue
+					}
+					g := c.Call.StaticCallee()
+					if g == nil || g.Blocks == nil {
+						continue
+					}
+					for k, a := range c.Call.Args {
+						if a == e && k < len(g.Params) && trueOnlyAfterStoring(g, g.Params[k], stFld) {
+							viaCAS = true
+						}
+					}
+				}
+				if viaCAS {
+					continue
+				}
+			}
 			// the flag is what a helper returns: every return of the helper
 			// carries zero or the value the helper itself stored
 			if c, isCall := e.(*ssa.Call); isCall {
@@ -669,6 +694,64 @@ func stateFlagOnlyAfterStore(x ssa.Value, stFld *types.Var, d *core.Domain) (boo
 		return false, bad
 	}
 	return true, "guard compares a flag that carries the value actually stored under the lock (zero when no store was performed)"
+}
+
+// trueOnlyAfterStoring: every return of the boolean helper g that may be true
+// comes after a store of g's parameter prm into the state field.
+func trueOnlyAfterStoring(g *ssa.Function, prm *ssa.Parameter, stFld *types.Var) bool {
+	var stores []*ssa.Store
+	core.EachInstr(g, func(i ssa.Instruction) {
+		if st, ok := i.(*ssa.Store); ok && core.AddrField(st.Addr) == stFld && st.Val == ssa.Value(prm) {
+			stores = append(stores, st)
+		}
+	})
+	if len(stores) == 0 {
+		return false
+	}
+	ok, n := true, 0
+	core.EachInstr(g, func(i ssa.Instruction) {
+		ret, isRet := i.(*ssa.Return)
+		if !isRet || core.IsRecoverBlock(i.Block()) {
+			return
+		}
+		rv := core.ReturnValues(ret)
+		if len(rv) != 1 {
+			ok = false
+			return
+		}
+		n++
+		var okv func(v ssa.Value, at ssa.Instruction, d int) bool
+		okv = func(v ssa.Value, at ssa.Instruction, d int) bool {
+			if d > 3 {
+				return false
+			}
+			if b, isC := core.ConstBool(v); isC {
+				if !b {
+					return true
+				}
+				for _, st := range stores {
+					if before(st, at) {
+						return true
+					}
+				}
+				return false
+			}
+			if ph, isPhi := v.(*ssa.Phi); isPhi {
+				for k, e := range ph.Edges {
+					pred := ph.Block().Preds[k]
+					if !okv(e, pred.Instrs[len(pred.Instrs)-1], d+1) {
+						return false
+					}
+				}
+				return true
+			}
+			return false
+		}
+		if !okv(rv[0], ret, 0) {
+			ok = false
+		}
+	})
+	return ok && n > 0
 }
 
 // c07StopCh: close(c.stopCh) must be guarded by "curState == Closed" and
